@@ -605,6 +605,16 @@ func genC07Nested(g engine.G) *engine.Case {
 		sc.Inputs = append(sc.Inputs, engine.Input{L: engine.Label{Name: "q2", Type: tq2, Dyn: tq2}, Tok: 10})
 		sc.Inputs = rapidPerm(g, sc.Inputs)
 	}
+	if x.Variant == 0 && g.Pct(30) {
+		// variant 2: a source value named like the second converter's NAMED
+		// input ("x") is supplied as well. The parameter being produced right
+		// there is x: its own name outranks the name inherited from further
+		// out, so the value named x is the one converted.
+		x.Variant = 2
+		sc.Inputs = append(sc.Inputs, engine.Input{L: engine.Label{Name: "x", Type: t0, Dyn: t0}, Tok: 5})
+		sc.Inputs = rapidPerm(g, sc.Inputs)
+		x.ParamInput[n] = 5
+	}
 	sc.Convs = rapidPerm(g, convs)
 	sc.Target = engine.FuncSpec{ID: engine.TargetID, In: []engine.Label{{Name: n, Type: t1, Dyn: t1}}, InForm: engine.Pick(g, []string{engine.FormStruct, engine.FormPtr}), OutForm: engine.FormPos}
 	c := &engine.Case{Sc: sc, Reps: 6}
